@@ -59,3 +59,57 @@ Definition check_thriftskip (fs : list field) : verdict :=
   end.
 Definition check_192 (fs : list field) : verdict := check_thriftskip fs.
 Definition check_693 (fs : list field) : verdict := check_thriftskip fs.
+
+(* ------------------------------------------------------------------ BinaryProtocol.Recycle / Reset (thrift and proto/binary) *)
+From DG Require Gen_thriftpool Gen_protopool.
+(* 1291 fields: which (0 thrift, 1 proto), content before, Read before, borrowed before; len(Buf), cap(Buf), Read, borrowed afterwards *)
+Definition check_1291 (fs : list field) : verdict :=
+  match fs with
+  | [FZ which; FB buf; FZ rd; FZ brw; FZ len'; FZ cap'; FZ rd'; FZ brw'] =>
+    let '(eff, gbuf, grd, gb) := if which =? 0 then Gen_thriftpool.BinaryProtocol_Recycle buf rd (zb' brw)
+                                 else Gen_protopool.BinaryProtocol_Recycle buf rd (zb' brw) in
+    vand (expect 1 ((blen gbuf =? len') && (grd =? rd') && Bool.eqb gb (zb' brw')) [FZ (blen gbuf); FZ grd; FZ (Z.b2z gb)])
+         (* what enters the pool is reset: empty, cursor 0, not borrowed; a borrowed (caller's) array does not enter the pool at all *)
+         (expect 2 ((len' =? 0) && (rd' =? 0) && (brw' =? 0) && (if zb' brw then cap' =? 0 else true)) [])
+  | _ => VBad 99 []
+  end.
+
+(* ------------------------------------------------------------------ the finite test in front of EncodeFloat64 (conv/p2j, conv/t2j) *)
+From DG Require Gen_p2jfinite Gen_t2jfinite Num.
+(* 392 / 893 / 1392 fields: which (0 p2j checkFinite, 1 t2j double field through BinaryConv.Do), IEEE bits, an error came back *)
+Definition check_finite (fs : list field) : verdict :=
+  match fs with
+  | [FZ which; FZ bits; FZ errd] =>
+    let g := if which =? 0 then negb (fst (Gen_p2jfinite.checkFinite bits 1) =? 0) else Gen_t2jfinite.double_not_finite bits in
+    vand (expect 1 (Bool.eqb g (zb' errd)) [FZ (Z.b2z g)])
+         (expect 2 (Bool.eqb (negb (Num.f64_is_finite bits)) (zb' errd)) [FZ (Z.b2z (negb (Num.f64_is_finite bits)))])
+  | _ => VBad 99 []
+  end.
+Definition check_392 (fs : list field) : verdict := check_finite fs.
+Definition check_893 (fs : list field) : verdict := check_finite fs.
+Definition check_1392 (fs : list field) : verdict := check_finite fs.
+
+(* ------------------------------------------------------------------ conv/j2p encodeMapKey *)
+From DG Require Gen_j2pkey J2P.
+(* the generated definition fed with what strconv.ParseInt / ParseUint / ParseBool answer on the key (the model's go_parse functions) *)
+Definition ok_or (r : option Z) : Z * Z := match r with Some z => (z, 0) | None => (0, 1) end.
+Definition gen_key (buf : list Z) (rd : Z) (key : list Z) (kk : Z) : Z * list (Z * list Z) * list Z * Z :=
+  let '(t1, e1) := ok_or (J2P.go_parse_int key 32) in
+  let '(t2, e2) := ok_or (J2P.go_parse_uint key 32) in
+  let '(t3, e3) := ok_or (J2P.go_parse_uint key 64) in
+  let '(t4, e4) := ok_or (J2P.go_parse_int key 64) in
+  let '(t5, e5) := match J2P.go_parse_bool key with Some b => (b, 0) | None => (false, 1) end in
+  Gen_j2pkey.visitorUserNode_encodeMapKey buf rd key kk t1 e1 t2 e2 t3 e3 t4 e4 t5 e5 1.
+
+(* 991 fields: key text, key type byte, bytes already in the buffer, buffer afterwards, an error came back *)
+Definition check_991 (fs : list field) : verdict :=
+  match fs with
+  | [FB key; FZ kk; FB pre; FB outb; FZ errd] =>
+    let '(e, _, gbuf, _) := gen_key pre 0 key kk in
+    vand (expect 1 (Bool.eqb (e =? 0) (errd =? 0) && bytes_eqb gbuf outb) [FZ e; FB gbuf])
+         match J2P.encode_map_key pre key kk with
+         | Some b => expect 2 ((errd =? 0) && bytes_eqb b outb) [FB b]
+         | None => expect 3 ((errd =? 1) && bytes_eqb pre outb) []
+         end
+  | _ => VBad 99 []
+  end.
